@@ -27,6 +27,7 @@ type C01Scenario struct {
 	InitialBest string     `json:"initial_best"` // peer's best tip at connect time
 	Silent      []string   `json:"silent,omitempty"`
 	ParseBlocks bool       `json:"parse_blocks,omitempty"`
+	Boundary    bool       `json:"boundary,omitempty"` // label only: the tree straddles the block file boundary
 	Events      []C01Event `json:"events"`
 }
 
@@ -47,6 +48,9 @@ func c01Run(sc *C01Scenario) (v *nodeViolation, flags map[string]bool) {
 	}
 	peer := newFakePeer(tree, best)
 	peer.parseBlocks = sc.ParseBlocks
+	if sc.Tree.Main > 1000 {
+		flags["file-boundary"] = true
+	}
 	for _, n := range sc.Silent {
 		if b, ok := tree.ByName[n]; ok {
 			peer.silentBlocks[b.Hash] = true
@@ -151,6 +155,9 @@ func c01Run(sc *C01Scenario) (v *nodeViolation, flags map[string]bool) {
 	}
 	reconnectsBefore := sn.reconnects
 	rounds := 40 + 4*len(tree.ByName)
+	if rounds > 520 {
+		rounds = 520 // boundary profile: at most ~60 blocks are ever downloaded
+	}
 	ok, used := sn.fairCompletion(func() bool { c, _ := sn.converged(); return c }, rounds)
 	if sn.reconnects > reconnectsBefore {
 		flags["timeout-recovery"] = true
@@ -175,13 +182,15 @@ func c01Run(sc *C01Scenario) (v *nodeViolation, flags map[string]bool) {
 	}
 	// every height-to-hash answer equals the peer's best chain
 	path := peer.best.Path()
-	sn.chainFrom = 0
-	chain, err := sn.nodeChain()
-	if err != nil {
-		return &nodeViolation{"C01/chain/unreadable", err.Error()}, flags
-	}
 	for h, b := range path {
-		if h >= len(chain) || chain[h] != b.Hash {
+		if len(path) > 200 && h < len(path)-45 && h%97 != 0 {
+			continue // long chains: every answer near the tip and the fork points, a sample below (each read of an older height parses a whole block file)
+		}
+		hash, err := sn.node.blocks.Hash(sn.ctx, h)
+		if err != nil {
+			return &nodeViolation{"C01/chain/unreadable", fmt.Sprintf("Hash(%d) with tip %d: %v", h, sn.node.blocks.LastHeight(), err)}, flags
+		}
+		if *hash != b.Hash {
 			return &nodeViolation{"C01/chain/differs", fmt.Sprintf("height %d: node does not hold the peer's block %s", h, b.Name)}, flags
 		}
 		if got, ok := sn.node.blocks.Height(&b.Hash); !ok || got != h {
@@ -201,15 +210,30 @@ func c01Nontrivial(f map[string]bool) bool {
 const c01Rule = "step-mode plans: generated block tree, start block (early/mid/late/absent), peer best-chain history (extend, reorganise to a longer branch incl. forks among pending blocks, below the start block, before and after in-sync), blocks the peer does not serve until the node's request time-out reconnects, duplicate header announcements, block reordering within a window, reconnects and clean restarts, and a generated interleaving of message delivery / check / block-processing steps; then fair completion; oracle: node chain == peer best chain at every height, in-sync notification only when all announced best-chain blocks are held; non-trivial = history contains a reorg, restart, reconnect, time-out-driven recovery or reordered delivery; distinct by scenario hash"
 
 func genC01(t *rapid.T) *C01Scenario {
-	sc := &C01Scenario{Tree: genTreeSpec(t, 24), ParseBlocks: rapid.Bool().Draw(t, "parse")}
-	// make branches longer so that reorganisations to them are possible
-	for i := range sc.Tree.Branches {
-		sc.Tree.Branches[i].Len += rapid.IntRange(0, 14).Draw(t, "extra")
+	// 1 case in 25 straddles the 1000-header block file boundary of the block repository
+	boundary := rapid.IntRange(0, 24).Draw(t, "profile") == 0
+	sc := &C01Scenario{ParseBlocks: rapid.Bool().Draw(t, "parse")}
+	minHeight := 1
+	if boundary {
+		sc.Boundary = true
+		minHeight = 985
+		main := rapid.IntRange(1001, 1016).Draw(t, "main")
+		sc.Tree = TreeSpec{Main: main}
+		for i, nb := 0, rapid.IntRange(1, 2).Draw(t, "branches"); i < nb; i++ {
+			sc.Tree.Branches = append(sc.Tree.Branches, BranchSpec{Tag: string(rune('b' + i)),
+				Fork: rapid.IntRange(988, main-1).Draw(t, "fork"), Len: rapid.IntRange(1, 20).Draw(t, "blen")})
+		}
+	} else {
+		sc.Tree = genTreeSpec(t, 24)
+		// make branches longer so that reorganisations to them are possible
+		for i := range sc.Tree.Branches {
+			sc.Tree.Branches[i].Len += rapid.IntRange(0, 14).Draw(t, "extra")
+		}
 	}
 	tree := buildTree(&sc.Tree)
 	var names []string
-	for n := range tree.ByName {
-		if n != "g" {
+	for n, b := range tree.ByName {
+		if n != "g" && b.Height >= minHeight {
 			names = append(names, n)
 		}
 	}
@@ -221,10 +245,10 @@ func genC01(t *rapid.T) *C01Scenario {
 	case 0:
 		sc.Start = ""
 	case 1:
-		sc.Start = ib.Path()[1].Name
+		sc.Start = ib.Path()[minHeight].Name
 	default:
 		p := ib.Path()
-		sc.Start = p[rapid.IntRange(1, len(p)-1).Draw(t, "start")].Name
+		sc.Start = p[rapid.IntRange(minHeight, len(p)-1).Draw(t, "start")].Name
 	}
 	if rapid.IntRange(0, 5).Draw(t, "silent") == 0 {
 		sc.Silent = append(sc.Silent, rapid.SampledFrom(names).Draw(t, "silentname"))
